@@ -12,6 +12,7 @@ import (
 	"fmt"
 	"go/constant"
 	"go/token"
+	"go/types"
 	"sort"
 	"strings"
 
@@ -33,6 +34,9 @@ type fdSpec struct {
 	// Return labels a return instruction (given the resolved result values).
 	Return    func(ret *ssa.Return, res []ssa.Value, eval func(ssa.Value) fdVal) string
 	MaxVisits int
+	// EffectR is Effect with access to resolve (the value an SSA value denotes on this path once results of
+	// inlined calls, phis and local cells are looked through); used instead of Effect when set.
+	EffectR func(ins ssa.Instruction, eval func(ssa.Value) fdVal, resolve func(ssa.Value) ssa.Value) (label string, stop bool)
 	// Inline says whether a statically resolved callee is walked as part of the caller (nil = never).
 	// Calls that Symbol names or Effect labels are never inlined.
 	Inline func(callee *ssa.Function) bool
@@ -131,6 +135,12 @@ func fdRun(fn *ssa.Function, spec *fdSpec, assign map[string]int64) []string {
 			}
 		}
 		switch x := v.(type) {
+		case *ssa.MakeInterface:
+			return fdVal{known: true, n: 1} // a concrete value boxed into an interface: non-nil
+		case *ssa.Call:
+			if knownNonNilResult(calleeOf(x)) {
+				return fdVal{known: true, n: 1}
+			}
 		case *ssa.Convert:
 			return eval(p, x.X)
 		case *ssa.ChangeType:
@@ -145,6 +155,9 @@ func fdRun(fn *ssa.Function, spec *fdSpec, assign map[string]int64) []string {
 			if x.Op == token.MUL {
 				if st, ok := p.cells[x.X]; ok {
 					return eval(p, st)
+				}
+				if g, ok := x.X.(*ssa.Global); ok && isErrorType(g.Type().(*types.Pointer).Elem()) {
+					return fdVal{known: true, n: 1} // a sentinel error variable: non-nil
 				}
 			}
 		case *ssa.BinOp:
@@ -299,8 +312,15 @@ func fdRun(fn *ssa.Function, spec *fdSpec, assign map[string]int64) []string {
 				return
 			}
 			labelled := false
-			if spec.Effect != nil {
-				if lab, stop := spec.Effect(ins, func(v ssa.Value) fdVal { return eval(p, v) }); lab != "" || stop {
+			if spec.Effect != nil || spec.EffectR != nil {
+				var lab string
+				var stop bool
+				if spec.EffectR != nil {
+					lab, stop = spec.EffectR(ins, func(v ssa.Value) fdVal { return eval(p, v) }, func(v ssa.Value) ssa.Value { return resolve(p, v) })
+				} else {
+					lab, stop = spec.Effect(ins, func(v ssa.Value) fdVal { return eval(p, v) })
+				}
+				if lab != "" || stop {
 					labelled = true
 					if lab != "" {
 						p.trace = append(p.trace, lab)
